@@ -9,6 +9,7 @@ import (
 
 	"github.com/xelaj/mtproto"
 	"github.com/xelaj/mtproto/internal/session"
+	"github.com/xelaj/mtproto/internal/transport"
 	"github.com/xelaj/mtproto/zverif/ref/authsrv"
 	"github.com/xelaj/mtproto/zverif/ref/mtp1"
 	"github.com/xelaj/mtproto/zverif/ref/rpcsrv"
@@ -22,88 +23,145 @@ import (
 // drawn from a seeded generator. Only Callers (without After), Opt, Script, Salt, StoredSalt, RotateBefore,
 // Fresh and Handler of the scenario are used. timedOut: the internal deadline passed (not judged).
 func RunFree(sc *Scenario, seed int64, timeout time.Duration) (w *World, timedOut bool) {
-	w = &World{Sc: sc, Store: &MemStore{}, Warn: make(chan error, 4096)}
-	w.Net = NewNet(nil)
-	key := TestKey()
-	w.Srv = rpcsrv.New(key, sc.Salt)
-	w.Srv.Opt = sc.Opt
-	w.Srv.Script = append([]rpcsrv.Event{}, sc.Script...)
-	w.Srv.RotateBefore = sc.RotateBefore
-	w.Net.Servers[Addr] = w.Srv
-	stored := sc.Salt
-	if sc.StoredSalt != nil {
-		stored = *sc.StoredSalt
+	ws, to := RunFreeMulti([]*Scenario{sc}, seed, timeout)
+	return ws[0], to
+}
+
+// RunFreeMulti runs several clients at once in one process, each against its own network and reference
+// server (nothing of the harness is shared between them, so the only memory two clients have in common is the
+// library's own package-level state).
+func RunFreeMulti(scs []*Scenario, seed int64, timeout time.Duration) (ws []*World, timedOut bool) {
+	type client struct {
+		w       *World
+		sc      *Scenario
+		host    string
+		pub     *rsa.PublicKey
+		stop    chan struct{}
+		flusher sync.WaitGroup
 	}
-	w.Store.Cur = &session.Session{Key: key, Hash: mtp1.KeyID(key), Salt: stored, Hostname: Addr}
-	var pub *rsa.PublicKey
-	host := "unused:1"
-	if sc.Fresh != nil {
-		host = Addr
-		w.Store.Cur = nil
-		w.Auth = authsrv.New(*sc.Fresh)
-		w.Srv.Key = nil
-		pub = &sc.Fresh.Key.PublicKey
-		w.Srv.Plain = func(body []byte, msgID int64) [][]byte {
-			out := w.Auth.Handle(body, msgID)
-			if w.Auth.Done {
-				w.Srv.Key, w.Srv.Salt = w.Auth.AuthKey, w.Auth.Salt
+	var cl []*client
+	byHost := map[string]*Net{}
+	for i, sc := range scs {
+		w := &World{Sc: sc, Store: &MemStore{}, Warn: make(chan error, 4096)}
+		w.Net = NewNet(nil)
+		addr := fmt.Sprintf("10.0.%d.1:443", i)
+		key := TestKey()
+		if i > 0 {
+			key = append([]byte{}, key...)
+			for k := range key {
+				key[k] ^= byte(17 * i)
 			}
-			return out
 		}
-	}
-	rng := mrand.New(mrand.NewSource(seed)) // used under the network lock only
-	drain := func(c *Conn, all bool) {
-		for c.live() {
-			m := c.Srv.Menu()
-			if len(m) == 0 || (!all && rng.Intn(4) == 0) {
-				return
-			}
-			if len(c.Srv.Queue) == 0 && !all && rng.Intn(2) == 0 {
-				return // only scripted events left: sometimes later
-			}
-			c.Do(m[rng.Intn(len(m))])
+		w.Srv = rpcsrv.New(key, sc.Salt)
+		w.Srv.Opt = sc.Opt
+		w.Srv.Script = append([]rpcsrv.Event{}, sc.Script...)
+		w.Srv.RotateBefore = sc.RotateBefore
+		w.Net.Servers[addr] = w.Srv
+		byHost[addr] = w.Net
+		stored := sc.Salt
+		if sc.StoredSalt != nil {
+			stored = *sc.StoredSalt
 		}
-	}
-	w.Net.Auto = func(c *Conn) {
-		if rng.Intn(3) != 0 {
-			drain(c, false)
-		}
-	}
-	w.Net.Install()
-	defer w.Net.Uninstall()
-	stop := make(chan struct{})
-	var flusher sync.WaitGroup
-	flusher.Add(1)
-	go func() { // whatever was deferred goes out a little later
-		defer flusher.Done()
-		for {
-			select {
-			case <-stop:
-				return
-			case <-time.After(150 * time.Microsecond):
-			}
-			w.Net.mu.Lock()
-			if n := len(w.Net.Conns); n > 0 {
-				c := w.Net.Conns[n-1]
-				if len(c.Srv.Queue) > 0 || rng.Intn(8) == 0 {
-					drain(c, len(c.Srv.Queue) > 0)
-					w.Net.cond.Broadcast()
+		w.Store.Cur = &session.Session{Key: key, Hash: mtp1.KeyID(key), Salt: stored, Hostname: addr}
+		c := &client{w: w, sc: sc, host: "unused:1", stop: make(chan struct{})}
+		if sc.Fresh != nil {
+			c.host = addr
+			w.Store.Cur = nil
+			w.Auth = authsrv.New(*sc.Fresh)
+			w.Srv.Key = nil
+			c.pub = &sc.Fresh.Key.PublicKey
+			w.Srv.Plain = func(body []byte, msgID int64) [][]byte {
+				out := w.Auth.Handle(body, msgID)
+				if w.Auth.Done {
+					w.Srv.Key, w.Srv.Salt = w.Auth.AuthKey, w.Auth.Salt
 				}
+				return out
 			}
-			w.Net.mu.Unlock()
+		}
+		rng := mrand.New(mrand.NewSource(seed*31 + int64(i))) // used under this network's lock only
+		drain := func(c *Conn, all bool) {
+			for c.live() {
+				m := c.Srv.Menu()
+				if len(m) == 0 || (!all && rng.Intn(4) == 0) {
+					return
+				}
+				if len(c.Srv.Queue) == 0 && !all && rng.Intn(2) == 0 {
+					return // only scripted events left: sometimes later
+				}
+				c.Do(m[rng.Intn(len(m))])
+			}
+		}
+		w.Net.Auto = func(c *Conn) {
+			if rng.Intn(3) != 0 {
+				drain(c, false)
+			}
+		}
+		c.flusher.Add(1)
+		go func() { // whatever was deferred goes out a little later
+			defer c.flusher.Done()
+			for {
+				select {
+				case <-c.stop:
+					return
+				case <-time.After(150 * time.Microsecond):
+				}
+				w.Net.mu.Lock()
+				if n := len(w.Net.Conns); n > 0 {
+					cn := w.Net.Conns[n-1]
+					if len(cn.Srv.Queue) > 0 || rng.Intn(8) == 0 {
+						drain(cn, len(cn.Srv.Queue) > 0)
+						w.Net.cond.Broadcast()
+					}
+				}
+				w.Net.mu.Unlock()
+			}
+		}()
+		for ci := range sc.Callers {
+			for oi, call := range sc.Callers[ci] {
+				w.Results = append(w.Results, &CallResult{Caller: ci, Op: oi, Call: call})
+			}
+		}
+		cl = append(cl, c)
+		ws = append(ws, w)
+	}
+	transport.VerifDial = func(cfg transport.TCPConnConfig) (transport.Conn, error) {
+		if n, ok := byHost[cfg.Host]; ok {
+			return n.dial(cfg)
+		}
+		return nil, fmt.Errorf("dialing tcp: connect %s: connection refused", cfg.Host)
+	}
+	defer func() { transport.VerifDial = nil }()
+	defer func() {
+		for _, c := range cl {
+			close(c.stop)
+			c.flusher.Wait()
 		}
 	}()
-	defer func() { close(stop); flusher.Wait() }()
 
-	for ci := range sc.Callers {
-		for oi, c := range sc.Callers[ci] {
-			w.Results = append(w.Results, &CallResult{Caller: ci, Op: oi, Call: c})
-		}
+	deadline := time.Now().Add(timeout)
+	var all sync.WaitGroup
+	var tmu sync.Mutex
+	for _, c := range cl {
+		c := c
+		all.Add(1)
+		go func() {
+			defer all.Done()
+			if runFreeClient(c.w, c.sc, c.host, c.pub, deadline) {
+				tmu.Lock()
+				timedOut = true
+				tmu.Unlock()
+			}
+		}()
 	}
+	all.Wait()
+	return ws, timedOut
+}
+
+func runFreeClient(w *World, sc *Scenario, host string, pub *rsa.PublicKey, deadline time.Time) (timedOut bool) {
 	m, err := mtproto.NewMTProto(mtproto.Config{SessionStorage: w.Store, ServerHost: host, PublicKey: pub})
 	if err != nil {
 		w.ConnErr = err
-		return w, false
+		return false
 	}
 	m.Warnings = w.Warn
 	var hmu sync.Mutex
@@ -116,7 +174,6 @@ func RunFree(sc *Scenario, seed int64, timeout time.Duration) (w *World, timedOu
 		})
 	}
 	w.M = m
-	deadline := time.After(timeout)
 	connDone := make(chan struct{})
 	go func() {
 		defer close(connDone)
@@ -131,11 +188,11 @@ func RunFree(sc *Scenario, seed int64, timeout time.Duration) (w *World, timedOu
 	}()
 	select {
 	case <-connDone:
-	case <-deadline:
-		return w, true
+	case <-time.After(time.Until(deadline)):
+		return true
 	}
 	if w.ConnErr != nil || w.ConnPanic != "" {
-		return w, false
+		return false
 	}
 	var wg sync.WaitGroup
 	for ci := range sc.Callers {
@@ -165,7 +222,7 @@ func RunFree(sc *Scenario, seed int64, timeout time.Duration) (w *World, timedOu
 	go func() { wg.Wait(); close(done) }()
 	select {
 	case <-done:
-	case <-deadline:
+	case <-time.After(time.Until(deadline)):
 		timedOut = true
 	}
 	if !timedOut {
@@ -191,5 +248,5 @@ func RunFree(sc *Scenario, seed int64, timeout time.Duration) (w *World, timedOu
 	case <-time.After(2 * time.Second):
 		timedOut = true
 	}
-	return w, timedOut
+	return timedOut
 }
